@@ -298,6 +298,9 @@ def shards(tier):
     for proto in ('xml', 'soap11', 'soap12'):
         for transport in ('server', 'wsgi'):
             out.append({'kind': 'inject', 'proto': proto, 'transport': transport, 'tier': tier})
+            # the same attacks against an application that validates with the schema (the attack documents follow each
+            # other on one application: what a validated request leaves behind is there for the next one)
+            out.append({'kind': 'inject', 'proto': proto, 'transport': transport, 'tier': tier, 'validator': 'lxml'})
             out.append({'kind': 'inject', 'proto': proto, 'transport': transport, 'tier': tier, 'program': 2})
             if tier == 'thorough':
                 out.append({'kind': 'inject', 'proto': proto, 'transport': transport, 'tier': tier, 'program': 1})
@@ -543,7 +546,7 @@ def run_shard(shard, only=None):
     proto, transport = shard['proto'], shard['transport']
     prog, args = programs(shard.get('program', 0))
     from spyne.server.wsgi import WsgiApplication
-    h = harness.XmlHarness(prog, proto, None)
+    h = harness.XmlHarness(prog, proto, shard.get('validator'))
     wsgi = WsgiApplication(h.app)
     m = h.b.methods['m']
     if args is None:
@@ -585,7 +588,7 @@ def run_shard(shard, only=None):
 
                 def V(what_kind, detail, what):
                     res['violations'].append({'sig': 'C17|%s|%s|%s|%s|%s' % (what_kind, proto, kind, detail, fid),
-                                              'what': '[%s %s %s at %s, framing %s] %s; document=%r' % (proto, transport, kind, pos, fid, what, data[:400]),
+                                              'what': '[%s%s %s %s at %s, framing %s] %s; document=%r' % (proto, ',validator=lxml' if shard.get('validator') else '', transport, kind, pos, fid, what, data[:400]),
                                               'case': casedoc, 'count': 1})
                 ok = True
                 nfile = mon.ino.drain()
